@@ -208,6 +208,8 @@ func emit(an *analysis, verbose bool) string {
 	w := func(f string, a ...any) { fmt.Fprintf(&b, f, a...) }
 	w("-- GENERATED by verif/go/cmd/gofacts from the repository's current source — do not edit\n")
 	w("namespace Gen.Facts\n\n")
+	w("/-- F3 skeleton of an entry method over the fields of its object (see gofacts/skel.go):\n    rd = reads, wr = whole-field store, upd = partial store (reads the field), alt = either branch,\n    loop = zero or more times, guard a = `if X == nil … { return }; a` (a nil guard with a bare return) -/\n")
+	w("inductive Skel where\n  | nil : Skel\n  | rd : List String → Skel\n  | wr : String → Skel\n  | upd : String → Skel\n  | seq : Skel → Skel → Skel\n  | alt : Skel → Skel → Skel\n  | loop : Skel → Skel\n  | guard : Skel → Skel\n\n")
 	phase := an.phases()
 	isLibVar := func(pv *pkgVarInfo) bool { return pv.pkg.isLib }
 
@@ -279,7 +281,7 @@ func emit(an *analysis, verbose bool) string {
 		codecTypes = append(codecTypes, tn)
 		var es []string
 		for e := range fi.storesThru[0] {
-			es = append(es, e)
+			es = append(es, e[2:])
 		}
 		sort.Strings(es)
 		for _, e := range es {
@@ -300,6 +302,28 @@ func emit(an *analysis, verbose bool) string {
 	}
 	w("/-- F2: every method with such a receiver (the set the obligation ranges over) -/\n")
 	w("def codecMethods : List (String × String) := %s\n\n", leanList(cm, true))
+	// F2b: stores through the codec.Parameters argument of codec methods
+	var cps []string
+	for _, st := range an.pstores {
+		tn, ok := isCodecRecv(st.fn)
+		if !ok {
+			continue
+		}
+		i, isParam := st.fn.pidx[st.root]
+		if !isParam || i == 0 {
+			continue
+		}
+		if ts := types.TypeString(st.root.Type(), func(q *types.Package) string { return q.Name() }); ts != "codec.Parameters" {
+			continue
+		}
+		via := st.kind
+		if strings.HasPrefix(via, "call:") && strings.HasSuffix(via, ").Validate") {
+			via = "Validate"
+		}
+		cps = append(cps, fmt.Sprintf("(%s, %s, %s)", q(tn), q(st.fn.decl.Name.Name), q(via)))
+	}
+	w("/-- F2b: (type, method, how) for every store through the codec.Parameters argument of a codec method;\n    `Validate` = by calling the parameter object's Validate method (see the V_* store conditions) -/\n")
+	w("def codecParameterStores : List (String × String × String) := %s\n\n", leanList(uniqSorted(cps), true))
 	w("/-- F2: (type, method, cell type) for every store through the receiver of such a method (transitively) -/\n")
 	w("def codecRecvStores : List (String × String × String) := %s\n\n", leanList(f2, true))
 
@@ -311,7 +335,7 @@ func emit(an *analysis, verbose bool) string {
 			unknowns = append(unknowns, unknownFact{spec[0] + "." + spec[1], "gofacts", "type or entry method " + spec[2] + " not found", true})
 			w("def %sFields : List (String × String) := []\ndef %sFieldReaders : List (String × List String) := []\n", pre, pre)
 			w("def %sFieldWriters : List (String × List (String × String)) := []\ndef %sFieldClass : List (String × String) := []\n", pre, pre)
-			w("def %sContentStores : List (String × String × String × String) := []\ndef %sWriterReads : List (String × List String) := []\n\n", pre, pre)
+			w("def %sContentStores : List (String × String × String × String) := []\ndef %sWriterReads : List (String × List String) := []\ndef %sSkeleton : Skel := .nil\n\n", pre, pre, pre)
 			continue
 		}
 		w("/-- F3 %s, entry %s: (field, type) in declaration order -/\n", fo.typeName, spec[2])
@@ -377,6 +401,20 @@ func emit(an *analysis, verbose bool) string {
 			items = append(items, fmt.Sprintf("(%s, %s)", q(fi.short), qlist(uniqSorted(rs))))
 		}
 		w("def %sWriterReads : List (String × List String) := %s\n\n", pre, leanList(items, true))
+		// skeleton
+		g := newSkelGen(fo, pre)
+		root := g.fn(fo.entryFn, true)
+		w("/-- F3 skeleton of %s.%s with every reachable callee inlined in statement order -/\n", fo.typeName, spec[2])
+		for _, d := range g.defs {
+			w("def %s : Skel := %s\n", d.name, d.a.lean())
+		}
+		w("def %sSkeleton : Skel := %s\n\n", pre, root.lean())
+		for _, n := range uniqSorted(g.notes) {
+			unknowns = append(unknowns, unknownFact{"skeleton " + fo.typeName, spec[2], n, true})
+		}
+		if verbose {
+			fmt.Fprintf(os.Stderr, "gofacts: skeleton %s: %d named parts\n", fo.typeName, len(g.defs))
+		}
 	}
 
 	// F4
@@ -409,7 +447,7 @@ func emit(an *analysis, verbose bool) string {
 			ip = append(ip, fmt.Sprintf("(%s, %s, %s, %v)", q(fi.name), q(p.Name()), q(ts), strings.HasPrefix(n, "Encode")))
 			var es []string
 			for e := range fi.storesThru[i] {
-				es = append(es, e)
+				es = append(es, e[2:])
 			}
 			sort.Strings(es)
 			for _, e := range es {
@@ -436,7 +474,7 @@ func emit(an *analysis, verbose bool) string {
 	w("def decodeInputStoresApprox : List (String × String × String) := %s\n\n", leanList(dps, true))
 	if verbose && os.Getenv("GOFACTS_PSTORES") != "" {
 		for _, s := range an.pstores {
-			if s.fn.pkg.isLib && (strings.Contains(s.fn.name, "ecode") || strings.Contains(s.fn.name, "ncode")) {
+			if s.fn.pkg.isLib && strings.Contains(s.fn.name, os.Getenv("GOFACTS_PSTORES")) {
 				fmt.Fprintf(os.Stderr, "pstore %s param=%s kind=%s %s:%d\n", s.fn.name, s.root.Name(), s.kind, shortFile(prog, s.pos.Filename), s.pos.Line)
 			}
 		}
@@ -593,6 +631,8 @@ type vtrans struct {
 	st   *types.Struct
 	used map[string]string
 	unk  []string
+	// locals bound by `if x := g(p.F); …`: x stands for the pseudo-field g_F (value of the pure helper g on field F)
+	locals map[string]string
 }
 
 func (v *vtrans) fieldOf(e ast.Expr) (string, types.Type, bool) {
@@ -633,8 +673,16 @@ func (v *vtrans) stmt(s ast.Stmt, path string) []vcond {
 		return v.block(x.List, path)
 	case *ast.IfStmt:
 		if x.Init != nil {
-			v.unk = append(v.unk, "if with init statement")
-			return []vcond{{"?", "true"}}
+			name, expr, ok := v.initBinding(x.Init)
+			if !ok {
+				v.unk = append(v.unk, "if with init statement outside the translated subset")
+				return []vcond{{"?", "true"}}
+			}
+			if v.locals == nil {
+				v.locals = map[string]string{}
+			}
+			v.locals[name] = expr
+			defer delete(v.locals, name)
 		}
 		c, ok := v.cond(x.Cond)
 		if !ok {
@@ -781,8 +829,49 @@ func (v *vtrans) cond(e ast.Expr) (string, bool) {
 	return "true", false
 }
 
+// initBinding: `x := g(p.F)` with g a function of the module (no receiver store: it gets a value) —
+// x is translated as the integer pseudo-field g_F of the generated structure
+func (v *vtrans) initBinding(s ast.Stmt) (string, string, bool) {
+	as, ok := s.(*ast.AssignStmt)
+	if !ok || as.Tok != token.DEFINE || len(as.Lhs) != 1 || len(as.Rhs) != 1 {
+		return "", "", false
+	}
+	id, ok := as.Lhs[0].(*ast.Ident)
+	if !ok {
+		return "", "", false
+	}
+	call, ok := unparen(as.Rhs[0]).(*ast.CallExpr)
+	if !ok || len(call.Args) != 1 {
+		return "", "", false
+	}
+	fn, ok := call.Fun.(*ast.Ident)
+	if !ok {
+		return "", "", false
+	}
+	if _, isFunc := v.fi.pkg.info.Uses[fn].(*types.Func); !isFunc {
+		return "", "", false
+	}
+	f, t, ok := v.fieldOf(call.Args[0])
+	if !ok {
+		return "", "", false
+	}
+	if b, isBasic := t.Underlying().(*types.Basic); !isBasic || b.Info()&types.IsInteger == 0 {
+		return "", "", false
+	}
+	if _, ok := v.use(f, t); !ok {
+		return "", "", false
+	}
+	pf := fn.Name + "_" + f
+	v.used[pf] = "Int"
+	return id.Name, "p." + pf, true
+}
+
 func (v *vtrans) arith(e ast.Expr) (string, bool) {
 	switch x := unparen(e).(type) {
+	case *ast.Ident:
+		if ex, ok := v.locals[x.Name]; ok {
+			return ex, true
+		}
 	case *ast.BasicLit:
 		switch x.Kind {
 		case token.INT:
